@@ -110,12 +110,13 @@ fn main() {
         rep.case("generate_modifies_only_the_output_directory", &format!("--validation {}", mode), &|| {
             let p = project(&root, &format!("gen_{}", mode), Some(conf_plain));
             fs::create_dir_all(p.join("src/generated")).map_err(|e| e.to_string())?;
-            for d in ["helpers.ts", "commands.test.ts", ".gitkeep", ".write_test", "README.md"] { fs::write(p.join("src/generated").join(d), format!("foreign {}", d)).map_err(|e| e.to_string())?; }
+            for d in ["helpers.ts", "commands.test.ts", ".gitkeep", ".write_test", "README.md", "dependency-graph.png", "dependency-graph.svg"] { fs::write(p.join("src/generated").join(d), format!("foreign {}", d)).map_err(|e| e.to_string())?; }
             let before = snapshot(&p);
             let pp = p.join("src-tauri"); let gp = p.join("src/generated");
-            for force in [true, false, false] {
+            for (force, viz) in [(true, false), (false, false), (true, true), (true, false), (false, false)] {
                 let mut a = vec!["generate", "--project-path", pp.to_str().unwrap(), "--output-path", gp.to_str().unwrap(), "--validation", mode];
                 if force { a.push("--force"); }
+                if viz { a.push("--visualize-deps"); }
                 let (code, text) = run(&cli, &p, &a)?;
                 if code != 0 { return Err(format!("generate ended with status {}: {}", code, text.chars().take(300).collect::<String>())); }
             }
